@@ -70,6 +70,19 @@ def msg_full(job):
         val = 'exc ' + vlib.exc_name(e)
     info = {'has_reference': hasattr(m, 'reference'), 'name': m.name,
             'msh': [c.name for c in m.children].count('MSH'), 'errors': locals().get('errs', [])}
+    try:
+        # the HL7 version (and level) every element of the tree carries: it comes from MSH-12, never from the process default
+        vs = set()
+
+        def walk(e, d=0):
+            vs.add((getattr(e, 'version', None), getattr(e, 'validation_level', None)))
+            if d < 3:
+                for c in getattr(e, 'children', []):
+                    walk(c, d + 1)
+        walk(m)
+        info['versions'] = sorted(map(str, vs))
+    except Exception as e:  # noqa
+        info['versions'] = 'exc ' + vlib.exc_name(e)
     return (enc, val, info)
 
 
